@@ -166,7 +166,8 @@ class VK:
                 if ring.iszero(d):
                     s._record(name, "discharged", "ring", t0, "", fam)
                 else:
-                    s._record(name, "refuted", "ring", t0, f"residual {ring.residual(d)!r}", fam)
+                    k = s._family_count[fam] = s._family_count.get(fam, 0) + 1
+                    s._record(name, "refuted", "ring", t0, f"residual {ring.residual(d)!r}" if k <= 2 else "non-zero normal form (residual printed for the first refuted entries of this family)", fam)
             else:
                 n = ring.l1norm(d)
                 if n <= tol:
